@@ -72,6 +72,14 @@ def judge_return(case, out, tol):
             f["cert_intercept"] = float(ib)
             f["cert_units"] = float(np.max(per)) if per is not None and len(per) else 0.0
             f["cert_slack"] = float(cert_slack(case, w))
+            # a prox-gradient residual is a gradient divided by the curvature of its unit: the rounding noise of a
+            # gradient (what cert_slack bounds) is amplified by 1/L_j on units of tiny scale.  Judge unit by unit.
+            Ls = case.fixpoint_steps(w)
+            if Ls is not None and per is not None and len(per) == len(Ls):
+                with np.errstate(divide="ignore"):
+                    amp = np.where(Ls > 0, 1.0 / np.maximum(Ls, 1e-300), 1.0)
+                f["cert_excess"] = float(max(float(np.max(np.asarray(per) - f["cert_slack"] * np.maximum(amp, 1.0))),
+                                             float(ib) - f["cert_slack"]))
         except Exception as e:
             f["cert_error"] = "%s: %s" % (type(e).__name__, e)
         try:
@@ -91,4 +99,6 @@ def cert_violated(f, tol):
     """True when a converged return fails the reference certificate."""
     if not f.get("converged") or "cert" not in f:
         return False
+    if "cert_excess" in f:
+        return not R.leq(f["cert_excess"], tol * (1 + SLACK["cert_rel"]), rel=0.0)
     return not R.leq(f["cert"], tol * (1 + SLACK["cert_rel"]) + f.get("cert_slack", 0.0), rel=0.0)
